@@ -115,15 +115,18 @@ def judge_billing(c, rec):
     days = pd.DatetimeIndex([d0 + pd.Timedelta(days=i) for i in range(ndays)]).tz_localize(tz, nonexistent="shift_forward", ambiguous=True)
     rng = np.random.default_rng(c["useed"] + 1)
     Base = em.BillingBaselineData if c["baseline"] else em.BillingReportingData
-    cls = ["sub=billing", "cycle=" + c["cycle"], "entry=" + c["entry"], "aim=%d" % ("aim" in c)]
+    # the same bills expressed in another unit (kWh, MWh, Wh): conservation is relative, whatever the magnitude of the numbers
+    unit = [1.0, 1.0, 1e-6, 1e3][c["useed"] % 4]
+    billed = usage * unit
+    cls = ["sub=billing", "cycle=" + c["cycle"], "entry=" + c["entry"], "aim=%d" % ("aim" in c), "unit=%g" % unit]
     with contextlib.redirect_stdout(io.StringIO()):
         if c["entry"] == "frame":
             T = pd.Series(50 + 20 * rng.random(ndays), index=days)
             obs = pd.Series(np.nan, index=days)
-            obs[reads[:-1]] = usage
+            obs[reads[:-1]] = billed
             data = Base(pd.DataFrame({"temperature": T, "observed": obs}), is_electricity_data=c.get("zero_bill") is None)
         else:
-            meter = pd.Series(list(usage) + [np.nan], index=reads, name="value")
+            meter = pd.Series(list(billed) + [np.nan], index=reads, name="value")
             if c["entry"] == "from_series":
                 tidx = pd.DatetimeIndex([d0 + pd.Timedelta(days=i) for i in range(ndays + 1)]).tz_localize(tz, nonexistent="shift_forward", ambiguous=True)
             else:
@@ -133,6 +136,7 @@ def judge_billing(c, rec):
                 T = T.tz_convert("UTC")  # the weather feed in UTC, the meter in local time: days stay local calendar days
             data = Base.from_series(meter, T, is_electricity_data=c.get("zero_bill") is None)
     o = data.df["observed"] if "observed" in data.df else pd.Series(np.nan, index=data.df.index)  # every period dropped
+    o = o / unit
     local_date = pd.Series(o.index.tz_localize(None).normalize(), index=o.index)
     lim = (25, 35) if c["cycle"] == "monthly" else (25, 70)
     used = np.zeros(len(o), bool)
